@@ -14,7 +14,9 @@ Shapes == {
   [amt |-> D(1050, 2), details |-> <<Det(D(1050, 2), D(50, 2))>>],
   [amt |-> D(123456, 2), details |-> <<Det(D(123456, 2), DZero)>>],
   [amt |-> D(100, 2), details |-> <<Det(D(200, 2), DZero), Rev(D(100, 2))>>],
-  [amt |-> D(1050, 2), details |-> <<Rev(D(50, 2)), Det(D(1100, 2), DZero)>>]
+  [amt |-> D(1050, 2), details |-> <<Rev(D(50, 2)), Det(D(1100, 2), DZero)>>],
+  \* a charge credited back by the bank (charge record with CRDT): the other party got amount + charge
+  [amt |-> D(1050, 2), details |-> <<Det(D(1050, 2), D(-50, 2))>>]
 }
 Entries == {[cd |-> cd, amt |-> s.amt, vday |-> v, bday |-> b, details |-> s.details] :
               cd \in {"CRDT", "DBIT"}, s \in Shapes, v \in {2, 3}, b \in {3}}
